@@ -16,7 +16,8 @@ FamCore0 == Fam(2, 2, 2, {"c", "a", "B"}, {"2"}, {"sqr", "g"}, {"i", "j", "0"}, 
 FamMut == Fam(2, 1, 2, {"c", "a"}, {"2"}, {"g"}, {"i"}, {"i"}, {"2"}, {"scope"}, AllMuts, None, None)
 FamMut2 == Fam(2, 2, 2, {"c", "a"}, {"2"}, {"g"}, {"i"}, {"i"}, {"2"}, {"scope"}, AllMuts, None, None)
 FamMut3 == Fam(3, 2, 3, {"c"}, {"2"}, None, None, None, {"2"}, None, {"number-position", "repeated-power", "repeated-fraction", "misplaced-minus"}, None, None)
-FamCor == Fam(2, 2, 2, {"c", "a"}, {"2"}, {"g"}, {"i"}, {"i"}, {"2"}, {"mean"}, None, AllCors, {1})
+FamCor == Fam(2, 1, 2, {"c", "a"}, {"2"}, {"g"}, {"i"}, {"i"}, {"2"}, {"mean"}, None, AllCors, {1})
+FamCor2 == Fam(2, 2, 2, {"c", "a"}, {"2"}, {"g"}, {"i"}, {"i"}, {"2"}, {"mean"}, None, AllCors, {1})
 \* one leaf: numerals, traces, selections on arrays of rank 1..3
 FamRank3 == Fam(1, 2, 1, {"A", "B", "T", "u"}, None, None, {"i", "j", "k", "0", "2"}, None, {"2"}, W2, None, None, None)
 \* one leaf, one call: generated axes with numerals, traced with the argument's axes
@@ -26,6 +27,8 @@ FamPerm == Fam(2, 1, 2, {"T"}, None, None, IJK, None, None, None, None, None, No
 FamPerm2 == Fam(2, 1, 2, {"T", "A"}, None, {"G"}, IJK, IJK, None, None, None, None, None)
 \* three leaves, only trees that follow the rules
 FamThreeV == [Fam(3, 3, 3, {"c", "a", "B"}, {"2"}, {"g"}, IJ, IJ, {"2"}, {"scope"}, None, None, None) EXCEPT !.VO = TRUE]
+\* three leaves over a vector and a square matrix with one letter: summed-index bookkeeping across sums, fractions, powers
+FamSummed == Fam(3, 3, 3, {"c", "a", "A"}, None, None, {"i"}, None, None, {"scope"}, None, None, None)
 \* three leaves
 FamThree == Fam(3, 3, 3, {"c", "a"}, {"2"}, {"sqr", "g"}, IJ, {"i"}, {"2"}, W2, None, None, None)
 \* random walks: a narrow index alphabet (many valid trees), the wide one, rule breakers, corruptions
